@@ -202,8 +202,11 @@ def load_harness(path):
 
 
 def run_one(harness_path, fn, args, inputs):
-    g = load_harness(harness_path)
+    import builtins
     rt = Runtime(inputs)
+    for k, f in rt.api().items():      # harness helper modules see the API as builtins, like in the interpreter
+        setattr(builtins, k, f)
+    g = load_harness(harness_path)
     g.update(rt.api())
     rt.patch_random()
     try:
